@@ -756,6 +756,63 @@ fn pure_digests() -> Vec<(String, String)> {
             Err(p) => rec(format!("{}:PANIC", f), Err(format!("{} at {}", p.msg, p.loc()))),
         }
     }
+    // synthetic corpora of the other checks (every k-th model font, so the sequence mixes table shapes the fixtures do
+    // not have: composites with varying offsets, every gvar packing, WOFF2 with every transform choice, collections):
+    // instancing, WOFF2 decoding and re-subsetting of the decoded font are pure, in this process and in another one
+    let c12 = crate::c12::corpus_for_c09(false);
+    let step12 = (c12.len() / 40).max(1);
+    for (desc, bytes, users) in c12.iter().step_by(step12) {
+        let r = guard(|| {
+            let mut v = Vec::new();
+            let Ok(fd) = ReadScope::new(bytes).read::<FontData<'_>>() else { return v };
+            let Ok(p) = fd.table_provider(0) else { return v };
+            for (k, user) in users.iter().enumerate().take(3) {
+                let fixed: Vec<Fixed> = user.iter().map(|u| Fixed::from_raw(*u)).collect();
+                v.push((format!("{}:instance{}", desc, k), allsorts::variations::instance(&p, &fixed).map(|x| x.0).map_err(|e| format!("{:?}", e))));
+            }
+            v.push((format!("{}:subset[0,1]", desc), allsorts::subset::subset(&p, &[0, 1]).map_err(|e| format!("{:?}", e))));
+            v
+        });
+        match r {
+            Ok(v) => {
+                for (n, r) in v {
+                    rec(n, r);
+                }
+            }
+            Err(p) => rec(format!("{}:PANIC", desc), Err(format!("{} at {}", p.msg, p.loc()))),
+        }
+    }
+    let c11 = crate::c11::corpus_for_c09(false);
+    let step11 = (c11.len() / 40).max(1);
+    for (desc, bytes, members) in c11.iter().step_by(step11) {
+        let r = guard(|| {
+            let mut v = Vec::new();
+            let Ok(fd) = ReadScope::new(bytes).read::<FontData<'_>>() else { return v };
+            for &m in members.iter().take(2) {
+                let Ok(p) = fd.table_provider(m) else { continue };
+                let mut tags = p.table_tags().unwrap_or_default();
+                tags.sort();
+                let mut all = Vec::new();
+                for t in &tags {
+                    if let Ok(Some(d)) = p.table_data(*t) {
+                        all.extend_from_slice(&t.to_be_bytes());
+                        all.extend_from_slice(&d);
+                    }
+                }
+                v.push((format!("{}[{}]:decoded-tables", desc, m), Ok(all)));
+                v.push((format!("{}[{}]:subset[0]", desc, m), allsorts::subset::subset(&p, &[0]).map_err(|e| format!("{:?}", e))));
+            }
+            v
+        });
+        match r {
+            Ok(v) => {
+                for (n, r) in v {
+                    rec(n, r);
+                }
+            }
+            Err(p) => rec(format!("{}:PANIC", desc), Err(format!("{} at {}", p.msg, p.loc()))),
+        }
+    }
     out
 }
 
